@@ -731,3 +731,115 @@ Proof.
   apply rl_sim_peek_else_err; [discriminate|apply rl_sim_bump|].
   intros [|t ts] H; cbn [rl_head_is] in H; [reflexivity|]. cbn [rg_sat]. rewrite H. reflexivity.
 Qed.
+
+(* ------------------------------------------------------------------ extensions *)
+(* Directives? X? with "at least one of them" checked at the end; i0 = something was already added before *)
+Definition rgl_ext2 (i0 : bool) (k : tkind) (qx : rg_p) : rg_p :=
+  if i0 then rg_seq (rgl_directives LP true) (rg_opt (rg_is k) qx)
+  else rg_seq (rg_peek (rg_is_at_or k)) (rg_seq (rgl_directives LP true) (rg_opt (rg_is k) qx)).
+
+Lemma rgl_directives_no_at ts : rl_head_is (rg_is TkAt) ts = false -> rgl_directives LP true ts = RgOk ts.
+Proof. intros H. unfold rgl_directives, rg_many. apply rg_many_f_stop. apply rl_head_nh. exact H. Qed.
+
+Lemma rl_sim_ext2 i0 k (X : PM unit) qx f (chk : bool -> bool -> bool) :
+  k <> TkAt -> k <> TkEof -> rl_sim (rg_starts (rg_is k)) X qx -> (forall d x, chk d x = i0 || d || x) ->
+  rl_sim rl_any
+    (d <- g_peek_is TkAt ;; p_when d (g_directives f GConst) ;;
+     x <- g_peek_is k ;; p_when x X ;; p_when (negb (chk d x)) p_err)
+    (rgl_ext2 i0 k qx).
+Proof.
+  intros Hka Hke HX Hchk.
+  pose proof (rl_sim_directives_opt f GConst) as HA. cbn [rl_cflag] in HA.
+  pose proof (rl_sim_if_peek k X qx Hke HX) as HB.
+  split.
+  { apply rl_gen_bind; [apply rl_gen_peek_is|intros d]. apply rl_gen_bind.
+    - destruct d; cbn [p_when]; [apply (rl_sim_directives f GConst)|apply rl_gen_ret].
+    - intros _. apply rl_gen_bind; [apply rl_gen_peek_is|intros x]. apply rl_gen_bind.
+      + destruct x; cbn [p_when]; [apply HX|apply rl_gen_ret].
+      + intros _. destruct (negb (chk d x)); cbn [p_when]; [apply rl_gen_err|apply rl_gen_ret]. }
+  intros s u s' E Hok Ht _. pose proof Hok as [Hinv Ha]. destruct (rl_inv_cur _ Hinv) as (t & Hc & Hi & _).
+  (* split the run into A = `@`-part, B = k-part, and the final check *)
+  unfold p_bind at 1 in E. rewrite (peek_is_some TkAt t s Hc) in E.
+  rewrite (rl_peek_is_view _ _ _ Hinv Hc) in E by discriminate.
+  set (d := rl_head_is (rg_is TkAt) (rl_sigs s)) in *.
+  apply bind_ok in E as (? & s1 & EA & E).
+  assert (EA' : g_if_peek TkAt (g_directives f GConst) s = POk (tt, s1)).
+  { unfold g_if_peek, p_bind. rewrite (peek_is_some TkAt t s Hc). rewrite (rl_peek_is_view _ _ _ Hinv Hc) by discriminate.
+    fold d. destruct x; exact EA. }
+  destruct (proj2 HA s tt s1 EA' Hok Ht I) as [HsA HcA].
+  destruct (rl_gen_run _ _ _ _ (proj1 HA) EA' Ht) as (Ht1 & Hcur1 & Hlim1 & Hx1).
+  apply bind_ok in E as (x' & s1' & Ep & E).
+  (* everything after A, as one computation from s1 *)
+  set (after := fun s0 => (x0 <- g_peek_is k ;; p_when x0 X ;; p_when (negb (chk d x0)) p_err) s0).
+  assert (Hgafter : rl_gen (x0 <- g_peek_is k ;; p_when x0 X ;; p_when (negb (chk d x0)) p_err)).
+  { apply rl_gen_bind; [apply rl_gen_peek_is|intros x0]. apply rl_gen_bind.
+    - destruct x0; cbn [p_when]; [apply HX|apply rl_gen_ret].
+    - intros _. destruct (negb (chk d x0)); cbn [p_when]; [apply rl_gen_err|apply rl_gen_ret]. }
+  assert (Eafter : (x0 <- g_peek_is k ;; p_when x0 X ;; p_when (negb (chk d x0)) p_err) s1 = POk (u, s')).
+  { unfold p_bind at 1. rewrite Ep. exact E. }
+  destruct (rl_gen_run _ _ _ _ Hgafter Eafter Ht1) as (_ & _ & _ & Hx2).
+  (* what B and the check do from a clean s1 *)
+  assert (HB1 : rl_ok s1 ->
+            exists s2, g_if_peek k X s1 = POk (tt, s2) /\ x' = rl_head_is (rg_is k) (rl_sigs s1) /\
+                       p_when (negb (chk d x')) p_err s2 = POk (u, s')).
+  { intros [Hinv1 _]. destruct (rl_inv_cur _ Hinv1) as (t1 & Hc1 & _).
+    rewrite (peek_is_some k t1 s1 Hc1) in Ep. injection Ep as <- <-.
+    apply bind_ok in E as (? & s2 & EB & E). exists s2. split; [|split; [|exact E]].
+    - unfold g_if_peek, p_bind. rewrite (peek_is_some k t1 s1 Hc1). destruct x0; exact EB.
+    - apply rl_peek_is_view; assumption. }
+  unfold rl_sound, rl_complete, rgl_ext2. split.
+  - intros He. destruct (rl_ext_split _ _ _ Hx1 Hx2 He) as [He1 He2].
+    destruct (HsA He1) as (Hok1 & [preA HpreA] & HqA).
+    destruct (HB1 Hok1) as (s2 & EB & Hx' & Echk).
+    destruct (proj2 HB s1 tt s2 EB Hok1 Ht1 I) as [HsB _].
+    destruct (rl_gen_run _ _ _ _ (proj1 HB) EB Ht1) as (Ht2 & _ & _ & HxB).
+    assert (HxC : rl_ext s2 s').
+    { destruct (negb (chk d x')); cbn [p_when] in Echk.
+      - exact (proj2 (post_returns _ _ _ _ (proj2 rl_gen_err) s2 I _ _ Echk)).
+      - unfold p_ret in Echk. injection Echk as _ <-. apply rl_ext_refl. }
+    destruct (rl_ext_split _ _ _ HxB HxC He2) as [HeB HeC].
+    destruct (HsB HeB) as (Hok2 & [preB HpreB] & HqB).
+    (* the final check did not report: one of the parts was present *)
+    assert (Hpresent : chk d x' = true).
+    { destruct (chk d x') eqn:Ec; [reflexivity|]. cbn [negb p_when] in Echk. exfalso. exact (rl_err_run _ _ _ Hok2 Echk HeC). }
+    rewrite Hpresent in Echk. cbn [negb p_when] in Echk. unfold p_ret in Echk. injection Echk as _ <-.
+    split; [exact Hok2|]. split; [exists (preA ++ preB); rewrite HpreA, HpreB; apply app_assoc|].
+    assert (Hseq : rg_seq (rgl_directives LP true) (rg_opt (rg_is k) qx) (rl_sigs s) = RgOk (rl_sigs s2)).
+    { unfold rg_seq. rewrite HqA. exact HqB. }
+    destruct i0; [exact Hseq|]. unfold rg_seq at 1. rewrite Hchk in Hpresent. cbn [orb] in Hpresent.
+    assert (Hpk : rg_peek (rg_is_at_or k) (rl_sigs s) = RgOk (rl_sigs s)).
+    { unfold rg_peek, rg_is_at_or. destruct (rl_sigs s) as [|t0 ts] eqn:Es.
+      - (* nothing left: neither part can be present *)
+        exfalso. unfold d in Hpresent. cbn [rl_head_is] in Hpresent. cbn [orb] in Hpresent.
+        assert (rl_sigs s1 = []) by (destruct preA; [symmetry; exact HpreA|discriminate HpreA]).
+        rewrite Hx', H in Hpresent. discriminate Hpresent.
+      - unfold d in Hpresent. cbn [rl_head_is] in Hpresent. destruct (rg_is TkAt t0) eqn:Hat; [reflexivity|].
+        cbn [orb] in Hpresent |- *.
+        (* no `@`: the directives part consumed nothing *)
+        assert (Hsame : rl_sigs s1 = t0 :: ts).
+        { rewrite rgl_directives_no_at in HqA by (cbn; exact Hat). injection HqA as HqA. symmetry. exact HqA. }
+        rewrite Hx', Hsame in Hpresent. cbn [rl_head_is] in Hpresent. rewrite Hpresent. reflexivity. }
+    rewrite Hpk. cbn [rg_bind]. exact Hseq.
+  - intros Hr r Hq.
+    assert (Hq' : rg_seq (rgl_directives LP true) (rg_opt (rg_is k) qx) (rl_sigs s) = RgOk r /\
+                  (i0 = false -> rl_head_is (rg_is_at_or k) (rl_sigs s) = true)).
+    { destruct i0; [split; [exact Hq|discriminate]|]. unfold rg_seq at 1, rg_bind, rg_peek in Hq.
+      destruct (rl_sigs s) as [|t0 ts]; [discriminate|]. destruct (rg_is_at_or k t0) eqn:Hao; [|discriminate].
+      split; [exact Hq|intros _; exact Hao]. }
+    destruct Hq' as [Hq' Hhead]. unfold rg_seq, rg_bind in Hq'.
+    destruct (rgl_directives LP true (rl_sigs s)) as [r1| |] eqn:EqA; try discriminate.
+    destruct (HcA Hr r1 EqA) as [He1 Hr1]. destruct (HsA He1) as (Hok1 & [preA HpreA] & HqA).
+    destruct (HB1 Hok1) as (s2 & EB & Hx' & Echk).
+    destruct (proj2 HB s1 tt s2 EB Hok1 Ht1 I) as [HsB HcB].
+    assert (Hr1' : rl_roomy s1) by (eapply rl_roomy_step; eauto).
+    rewrite <- Hr1 in Hq'. destruct (HcB Hr1' r Hq') as [HeB HrB]. destruct (HsB HeB) as (Hok2 & _ & _).
+    assert (Hpresent : chk d x' = true).
+    { rewrite Hchk. destruct i0; [reflexivity|]. cbn [orb]. specialize (Hhead eq_refl). unfold d.
+      destruct (rl_sigs s) as [|t0 ts] eqn:Es; [discriminate|]. cbn [rl_head_is] in Hhead |- *. unfold rg_is_at_or in Hhead.
+      destruct (rg_is TkAt t0) eqn:Hat; [reflexivity|]. cbn [orb] in Hhead |- *.
+      assert (Hsame : rl_sigs s1 = t0 :: ts).
+      { rewrite rgl_directives_no_at in EqA by (cbn; exact Hat). injection EqA as <-. exact Hr1. }
+      rewrite Hx', Hsame. cbn [rl_head_is]. exact Hhead. }
+    rewrite Hpresent in Echk. cbn [negb p_when] in Echk. unfold p_ret in Echk. injection Echk as _ <-.
+    split; [congruence|exact HrB].
+Qed.
